@@ -8,7 +8,8 @@ SPEC = dict(
     rtol=1e-9, atol=1e-12,
     rule="single-joint systems Ground->body: 18 built-in types x {identity, translation-only, general} inboard x outboard "
          "frames x forward/reversed x quaternion/Euler x random q,u, plus 10% random trees (2-6 bodies quick, 2-12 thorough; "
-         "chain/star/random branching) from VERIF_SEED; distinct = distinct input records",
+         "chain/star/random branching), plus a STATE-REUSE stream: 17 types + 8 FunctionBased mirrors x 5 orders of {set q, set u, "
+         "realize P/V/A} on one State object, observed at the end (D tags reuse.*); from VERIF_SEED; distinct = distinct input records",
     partial="(i) proved about the executed model: X_FM jets for Pin, Slider, Cylinder, Screw, Translation, Planar, BendStretch, "
             "Universal, Gimbal, Bushing, Cantilever, Ball/Free/Ellipsoid (both options), LineOrientation/FreeLine (both options, "
             "FORWARD definition only), SphericalCoords (via C05 docX + code_eq_doc); HDot_FM of every type with non-constant H; "
